@@ -1906,6 +1906,17 @@ def c06(tier):
     vlib.write_ndjson(strace, sev)
     res2 = vlib.validate_segments("Trace_Path.tla", "Trace_Path.cfg", strace, wd, tag="spaths")
     rep.add_tv(res2, {s["sc"]: {"sc": s["sc"], "hex": s["hex"][:200000]} for s in sscs}, "spaths")
+    # beyond the property: the writer's deprecated *_from_path calls build the entry name from the ordinary components
+    fcases = [{"hex": nm.hex(), "dir": (k % 3 == 0)} for k, nm in enumerate(names) if b"\x00" not in nm and len(nm) <= 300]
+    if tier == "quick":
+        fcases = fcases[::4]
+    fp = os.path.join(wd, "frompath-cases.ndjson")
+    ft = os.path.join(wd, "frompath-trace.ndjson")
+    vlib.write_ndjson(fp, [{"sc": "fp%04d" % (i // 2000), "paths": fcases[i:i + 2000]} for i in range(0, len(fcases), 2000)])
+    vlib.run_harness(["fpexec", fp, ft])
+    res3 = vlib.validate_segments("Trace_Path.tla", "Trace_Path.cfg", ft, wd, tag="frompath")
+    rep.add_tv(res3, {}, "frompath")
+    rep.notes["from_path_cases"] = len(fcases)
     rep.notes["spec_counters"] = dict(vlib.LAST_STATS)
     rep.evaluations += len(names) + len(sev)
     for nm in names:
